@@ -465,6 +465,9 @@ func Start(xmlText string, vars map[string]any, opts ...bpmn.Option) (*Inst, *sc
 	return in, defs, err
 }
 
+// InstancesWithOwnTracer counts the instances that were given their tracer as an option.
+var InstancesWithOwnTracer int
+
 // EngineDefaultContext counts the instances created by an engine that was given no context.
 var EngineDefaultContext int
 
@@ -548,6 +551,12 @@ func NewInst(defs *schema.Definitions, vars map[string]any, opts ...bpmn.Option)
 		all = append(all, bpmn.WithVariables(vars))
 	}
 	all = append(all, opts...)
+	if ps := *defs.Processes(); len(opts) == 0 && len(ps) > 0 && len(ps[0].FlowElements())%3 == 2 {
+		// a third of the instances created without further options are given their tracer EXPLICITLY (an application
+		// that wants to own it): it is the instance's tracer like the one the engine would have made
+		all = append(all, bpmn.WithTracer(tracing.NewTracer(ctx)))
+		InstancesWithOwnTracer++
+	}
 	// the ENGINE's context is the instance's own for half of the documents and the engine's default (never cancelled)
 	// for the others: an instance lives and ends on the context it was given, whatever the engine was created with
 	eng := bpmn.NewEngine(bpmn.WithEngineContext(ctx))
